@@ -350,6 +350,9 @@ pub struct ApiCheck<'a> {
     pub property: &'a str,
     pub scope: &'a str,
     pub depth: u32,
+    /// also require every element member's prefix to be bound (in the struct's own namespaces
+    /// map) to the namespace of the schema that declared the member
+    pub member_namespaces: bool,
 }
 
 fn name_style(n: &str) -> &'static str {
@@ -440,6 +443,17 @@ pub fn compare_api(ex: &Extract, model: &RefModel, chk: &ApiCheck, only: Option<
             }
             if !f.is_pub || !is_snake_ident(&f.ident) {
                 vs.push(member_ctx(v("api.ident"), comp, m).ctx("position", "field").ctx("name.style", name_style(&m.wire)).exp("a public snake_case identifier").act(&f.ident));
+            }
+            if chk.member_namespaces && !m.is_attr {
+                let bound = f.ya.prefix.as_deref().and_then(|p| st.prefix_uri(p));
+                if bound != m.ns.as_deref() {
+                    vs.push(
+                        member_ctx(v("ns.binding"), comp, m)
+                            .ctx("member.namespace", if m.ns.as_deref() == Some(comp.ns.as_str()) { "same-as-struct" } else { "other" })
+                            .exp(format!("prefix of `{}` bound to {:?} in the struct's namespaces map", m.wire, m.ns))
+                            .act(format!("prefix {:?} bound to {:?}; struct declares {:?}", f.ya.prefix, bound, st.ya.namespaces)),
+                    );
+                }
             }
             if f.ty.wrapper != m.wrapper {
                 vs.push(
